@@ -30,11 +30,23 @@ type caseResult struct {
 	Feedbacks  int
 }
 
+// extIDOf is the transport-cc extension id negotiated for a stream.
+func extIDOf(ssrc uint32) uint8 {
+	if ssrc == ssrcU {
+		return extID + 2
+	}
+	return extID
+}
+
 func header(p *sentPkt) *rtp.Header {
 	h := &rtp.Header{Version: 2, PayloadType: 96, SequenceNumber: p.rtpSeq, Timestamp: uint32(p.idx) * 3000, SSRC: p.ssrc}
 	if p.twcc {
-		// RFC 8285 one-byte extension, id 5: the 16-bit transport-wide sequence number
-		_ = h.SetExtension(extID, []byte{byte(p.twccSeq >> 8), byte(p.twccSeq)})
+		// RFC 8285 one-byte extension: the 16-bit transport-wide sequence number under the id the stream
+		// negotiated (5 on stream T, 7 on stream U, which carries an unrelated extension under 5)
+		_ = h.SetExtension(extIDOf(p.ssrc), []byte{byte(p.twccSeq >> 8), byte(p.twccSeq)})
+		if p.ssrc == ssrcU {
+			_ = h.SetExtension(extID, []byte{0xAB, 0xCD, 0xEF})
+		}
 	}
 	p.hdr = h.MarshalSize()
 	return h
@@ -176,7 +188,7 @@ func runCC(c caseDesc, m *model, oc *[]string, r *caseResult) []finding {
 				h := header(p)
 				attr := interceptor.Attributes{}
 				if p.twcc {
-					attr.Set(cc.TwccExtensionAttributesKey, uint8(extID))
+					attr.Set(cc.TwccExtensionAttributesKey, extIDOf(p.ssrc))
 				}
 				if err := ad.OnSent(p.dep, h, p.payload, attr); err != nil {
 					out = append(out, finding{"C09:cc-onsent-error", fmt.Sprintf("OnSent(%v) returned %v", p, err)})
@@ -261,9 +273,10 @@ func runRTPFB(c caseDesc, m *model, oc *[]string, r *caseResult) []finding {
 	}
 	sink := &nullWriter{}
 	twccExt := []interceptor.RTPHeaderExtension{{URI: transportCCURI, ID: extID}}
+	twccExtU := []interceptor.RTPHeaderExtension{{URI: "urn:other", ID: extID}, {URI: transportCCURI, ID: extID + 2}}
 	writers := map[byte]interceptor.RTPWriter{
 		'T': ic.BindLocalStream(&interceptor.StreamInfo{SSRC: ssrcT, RTPHeaderExtensions: twccExt}, sink),
-		'U': ic.BindLocalStream(&interceptor.StreamInfo{SSRC: ssrcU, RTPHeaderExtensions: twccExt}, sink),
+		'U': ic.BindLocalStream(&interceptor.StreamInfo{SSRC: ssrcU, RTPHeaderExtensions: twccExtU}, sink),
 		'A': ic.BindLocalStream(&interceptor.StreamInfo{SSRC: ssrcA}, sink),
 		'B': ic.BindLocalStream(&interceptor.StreamInfo{SSRC: ssrcB}, sink),
 	}
@@ -278,7 +291,7 @@ func runRTPFB(c caseDesc, m *model, oc *[]string, r *caseResult) []finding {
 	sink2 := &nullWriter{}
 	siblings := map[byte]interceptor.RTPWriter{
 		'T': ic2.BindLocalStream(&interceptor.StreamInfo{SSRC: ssrcT, RTPHeaderExtensions: twccExt}, sink2),
-		'U': ic2.BindLocalStream(&interceptor.StreamInfo{SSRC: ssrcU, RTPHeaderExtensions: twccExt}, sink2),
+		'U': ic2.BindLocalStream(&interceptor.StreamInfo{SSRC: ssrcU, RTPHeaderExtensions: twccExtU}, sink2),
 		'A': ic2.BindLocalStream(&interceptor.StreamInfo{SSRC: ssrcA}, sink2),
 		'B': ic2.BindLocalStream(&interceptor.StreamInfo{SSRC: ssrcB}, sink2),
 	}
